@@ -346,7 +346,7 @@ def make_span(sd, labels_only=False):
         return pd.Index(vals)
     if sd['kind'] == 'pdperiod' and not labels_only:         # a PeriodIndex (annual periods)
         import pandas as pd
-        return pd.period_range(start=str(max(1, sd['start'])), periods=sd['n'], freq='Y')
+        return pd.period_range(start=str(1990 + sd['start'] % 50), periods=sd['n'], freq='Y')
     if sd['kind'] == 'ndarray' and not labels_only:          # a mutable NumPy array as span (copy() must deep-copy it like a list)
         import numpy as np
         return np.array(vals)
@@ -409,15 +409,7 @@ def impl(case):
                     # ... unless the object is one its own constructor refuses: (a) the class was mutated into a state in which
                     # constructing a fresh instance on the same span raises too (a broken class: duplicate in NAMES, an alias shadowing
                     # a variable), (b) a linker whose `name` was set to one of its submodel identifiers
-                    excused = None
-                    if _is_container(src) and isinstance(src.__dict__.get('submodels'), dict):
-                        if src.__dict__.get('name') in src.__dict__['submodels']:
-                            excused = 'linker-name-is-a-submodel-identifier'
-                    else:
-                        try:
-                            type(src)(_copy.deepcopy(src.__dict__['span']))
-                        except Exception:
-                            excused = 'class-constructor-raises'
+                    excused = _refused_by_own_constructor(src)
                     copy_checks.append({'src': i, 'route': route, 'raised': type(e).__name__, 'excused': excused})
                     raise
                 roots.append(new)
@@ -483,6 +475,30 @@ def impl(case):
     obs['probes'] = probes
     obs['vocab_size'] = len(enc.vocab)
     return obs
+
+
+def _refused_by_own_constructor(x):
+    """why an object cannot be re-created by its own class (None: it can): copy() constructs a new instance of the class as it is now"""
+    if not _is_container(x):
+        return None
+    subs = x.__dict__.get('submodels')
+    if isinstance(subs, dict):
+        if x.__dict__.get('name') in subs:
+            return 'linker-name-is-a-submodel-identifier'
+        for v in subs.values():
+            why = _refused_by_own_constructor(v)
+            if why:
+                return why
+        try:
+            type(x)({})
+        except Exception:
+            return 'class-constructor-raises'
+        return None
+    try:
+        type(x)(_copy.deepcopy(x.__dict__['span']))
+    except Exception:
+        return 'class-constructor-raises'
+    return None
 
 
 def _dict_diff(src, new):
@@ -1337,7 +1353,8 @@ def gen_case(rng, flavour, uniq):
     shadows = [None] * len(classes)      # index = root index
 
     def new_instance(shared=False):
-        sd = {'kind': 'shared', 'id': 0} if shared else {'kind': rng.choice(['range', 'range', 'list', 'tuple', 'ndarray', 'pdindex']), 'start': rng.choice([0, 2000]), 'n': n}
+        sd = {'kind': 'shared', 'id': 0} if shared else {'kind': rng.choice(['range', 'range', 'list', 'tuple', 'ndarray', 'pdindex'] + ([] if flavour in ('tracer', 'both', 'model') else ['pdperiod'])),
+                                                          'start': rng.choice([0, 2000]), 'n': n}
         init = {}
         if desc['kind'] == 'model' and rng.random() < 0.5:
             init[rng.choice(desc['endo'] + desc['exo'])] = [lib.fhex(rng.choice(FLOATS)) for _ in range(n)]
@@ -1364,8 +1381,26 @@ def gen_case(rng, flavour, uniq):
             # malformed: the second submodel's span differs -> BaseLinker.__init__ raises InitialisationError (the span-equality check
             # is not modelled: the history ends here on both sides, nothing may have been shared or changed)
             events[-1][2]['span'] = dict(events[-1][2]['span'], start=events[-1][2]['span']['start'] + 1)
-        events.append(['linker_init', 1, [['A', a], ['B', b]]])
-        shadows.append(Shadow('linker', 1, classes[1], n, ['LV'], ['LV', 'status', 'iterations'], {'A': a, 'B': b}))
+        # 1, 2 or 3 submodels; identifiers incl. the DEFAULT linker name '_'; the linker's own name default / explicit / (malformed) equal
+        # to one of the identifiers (BaseLinker.__init__ refuses: DuplicateNameError, modelled)
+        members = [a, b]
+        r3 = rng.random()
+        if r3 < 0.2:
+            members = [a]
+        elif r3 < 0.4:
+            c3 = new_instance()
+            events[-1][2]['span'] = dict(events[-3][2]['span'] if False else events[-2][2]['span'])
+            members = [a, b, c3]
+        keys = rng.sample(['A', 'B', 'C', '_'], len(members)) if rng.random() < 0.35 else ['A', 'B', 'C'][:len(members)]
+        subs = [[k, m] for k, m in zip(keys, members)]
+        ev = ['linker_init', 1, subs]
+        rn = rng.random()
+        if '_' in keys or rn < 0.35:
+            ev.append(rng.choice(['L', 'L', 'linker', 7]))
+        if rn > 0.93:
+            ev = ['linker_init', 1, subs, rng.choice(keys)]          # malformed
+        events.append(ev)
+        shadows.append(Shadow('linker', 1, classes[1], n, ['LV'], ['LV', 'status', 'iterations'], {k: m for k, m in subs}))
         shadows[-1].desc_sub_endo = desc['endo'][0]
     elif rng.random() < 0.5 or shared_spans:
         new_instance(shared=bool(shared_spans))
@@ -1404,6 +1439,14 @@ def gen_case(rng, flavour, uniq):
             if desc['kind'] == 'container':
                 continue
             uniq[0] += 1
+            if rng.random() < 0.06:
+                # a class mutated into a state in which its constructor raises (a duplicate in NAMES; an alias that maps a variable's
+                # own name): M(span) raises, and so does the copy of every older instance - excused by the oracle exactly then
+                if alias and rng.random() < 0.5:
+                    events.append(['op', 0, ['dictset', 'ALIASES', desc['endo'][0], (desc['exo'] or desc['endo'])[-1]]])
+                else:
+                    events.append(['op', 0, ['lappend', 'NAMES', desc['endo'][0]]])
+                continue
             if attr == 'TRACE_VARIABLES':
                 events.append(['op', 0, ['lappend', attr, rng.choice(desc['endo'] + desc['exo'])]])
             elif rng.random() < 0.25 and alias:
@@ -1459,8 +1502,11 @@ def gen_op(rng, s, fresh_float, alias, tracer):
             return ['setitem', 'LV', rng.randrange(n), lib.fhex(fresh_float()), 'attr']
         if q < 0.72:
             return ['lappend', rng.choice(['check', 'endogenous', 'names']), rng.choice(['LV', 'LW'])]
-        if q < 0.80:
+        if q < 0.76:
             return ['setattr', rng.choice(['lags', 'leads']), rng.randint(0, 1)]
+        if q < 0.80:
+            # l.name = ... (the copy must keep it); rarely one of the submodel identifiers: a state construction refuses, so does copy()
+            return ['setattr', 'name', rng.choice(['L2', 'L3', 9]) if rng.random() < 0.85 else key]
         return rng.choice([['setattr', rng.choice(ATTR_NAMES), rng.randint(0, 5)], ['setattrlist', rng.choice(ATTR_NAMES), [1, 2]]])
     fv = s.fvars
     names_for_access = list(fv) + ([a for a in (alias or {})] if alias and s.kind == 'model' else [])
